@@ -125,7 +125,17 @@ class SR:
     def _bin(self, o, f, rev=False):
         if isinstance(o, rnp.ndarray):
             return NotImplemented
-        if isinstance(o, (complex, rnp.complexfloating, SC, AR, Angle)):
+        if isinstance(o, (complex, rnp.complexfloating)):
+            a, b = SC.lift(self), SC.lift(o)
+            opn = getattr(f, "__name__", "")
+            if rev:
+                a, b = b, a
+            if opn == "add": return a + b
+            if opn == "sub": return a - b
+            if opn == "mul": return a * b
+            if opn == "_div": return a / b
+            return NotImplemented
+        if isinstance(o, (SC, AR, Angle)):
             return NotImplemented
         try:
             b = tz(o)
